@@ -12,15 +12,16 @@
 (*                   its base learners)                                    *)
 (*   Learn(a, r)     learner.learn(context, action, reward, probability)   *)
 (*                                                                         *)
-(* coba/learners/bandit.py     RandomLearner 188-211, FixedLearner 161-186,*)
-(*                             BanditEpsilonLearner 18-60,                 *)
-(*                             BanditUCBLearner 62-159                     *)
-(* coba/learners/utilities.py  PMFPredictor 6-25: the action is drawn with *)
+(* coba/learners/bandit.py     BanditEpsilonLearner 18-60, BanditUCBLearner*)
+(*                             62-156, FixedLearner 158-187,               *)
+(*                             RandomLearner 189-211                       *)
+(* coba/learners/utilities.py  PMFPredictor 6-25 (score 22, predict 25): the action is drawn with *)
 (*                             CobaRandom.choicew(actions, pmf) and the    *)
 (*                             reported probability is pmf[index]          *)
-(* coba/learners/misguided.py  MisguidedLearner 3-35: the wrapped learner  *)
+(* coba/learners/misguided.py  MisguidedLearner 3-35 (learn 34-35): the wrapped learner  *)
 (*                             with reward shifter + scaler*reward         *)
-(* coba/learners/corral.py     CorralLearner 10-172                        *)
+(* coba/learners/corral.py     CorralLearner 10-172 (_pmf 66-71, learn      *)
+(*                             79-113, _log_barrier_omd 115-172)           *)
 (* coba/random.py              the generator: EXTENDS CobaRandom (C05)     *)
 (*                                                                         *)
 (* What is EXACT (rationals; the action is the exact function of the seed  *)
@@ -64,9 +65,9 @@ MinOf(S) == CHOOSE x \in S : \A y \in S : x <= y
 
 (***************************************************************************)
 (* State of the epsilon-greedy / UCB learners.                              *)
-(*  n[a]    number of learn calls for action a   (_N  bandit.py:58 / _s 121)*)
+(*  n[a]    number of learn calls for action a  (_N bandit.py:60 / _s 117-123)*)
 (*  s[a]    sum of the (transformed) rewards of a in units of 1/(2 md):     *)
-(*          the running mean _Q[a] (bandit.py:55-57) is s[a]/(n[a]*2md)     *)
+(*          the running mean _Q[a] (bandit.py:57-59) is s[a]/(n[a]*2md)     *)
 (*  firm[a] the float _Q[a] is EXACTLY that mean (see LearnSt): an exact    *)
 (*          tie between firm values is a tie in the code as well; a tie     *)
 (*          that involves a rounded value may be broken either way          *)
@@ -76,21 +77,21 @@ St0 == [n |-> [a \in Acts |-> 0], s |-> [a \in Acts |-> 0], firm |-> [a \in Acts
 Unit(c) == 2 * c.md
 RT(c, r2) == 2 * c.shn + c.scn * r2                       \* misguided.py:35  shifter + scaler*reward, numerator over 2 md
 
-(* value(a) <= value(b); a never-observed action has value 0 (bandit.py:30 defaultdict(int), 41) *)
+(* value(a) <= value(b); a never-observed action has value 0 (bandit.py:30 defaultdict(int), 40-41) *)
 VLeq(st, a, b) == st.s[a] * Max2(st.n[b], 1) <= st.s[b] * Max2(st.n[a], 1)
-BestIdx(st, acts) == {i \in DOMAIN acts : \A j \in DOMAIN acts : VLeq(st, acts[j], acts[i])}            \* bandit.py:42-43
+BestIdx(st, acts) == {i \in DOMAIN acts : \A j \in DOMAIN acts : VLeq(st, acts[j], acts[i])}            \* bandit.py:41-42
 (* the sets of positions among which the greedy mass may be shared *)
 EpsGroups(st, acts) == LET Bst == BestIdx(st, acts) IN
                        IF \A i \in Bst : st.firm[acts[i]] THEN {Bst} ELSE (SUBSET Bst) \ {{}}
-(* UCB (bandit.py:92-103): the never-observed offered actions if any, else the maximisers of a transcendental index *)
+(* UCB (bandit.py:90-102): the never-observed offered actions if any, else the maximisers of a transcendental index *)
 UcbGroups(st, acts) == LET U == {i \in DOMAIN acts : st.n[acts[i]] = 0} IN
                        IF U # {} THEN {U} ELSE (SUBSET (DOMAIN acts)) \ {{}}
 
 (* integer weights over a common denominator *)
-EpsW(c, n, G) == [i \in 1..n |-> c.en * Cardinality(G) + (IF i \in G THEN (c.ed - c.en) * n ELSE 0)]     \* bandit.py:45-48
-UniW(n, G) == [i \in 1..n |-> IF i \in G THEN 1 ELSE 0]                                                  \* bandit.py:103
+EpsW(c, n, G) == [i \in 1..n |-> c.en * Cardinality(G) + (IF i \in G THEN (c.ed - c.en) * n ELSE 0)]     \* bandit.py:44-47
+UniW(n, G) == [i \in 1..n |-> IF i \in G THEN 1 ELSE 0]                                                  \* bandit.py:102
 
-(* FixedLearner returns its pmf whatever is offered (bandit.py:176-177): it is defined for action sets of that size *)
+(* FixedLearner returns its pmf whatever is offered (bandit.py:177-178): it is defined for action sets of that size *)
 Defined(c, acts) == Len(acts) >= 1 /\ (c.k = "fixed" => Len(c.w) = Len(acts))
 
 (* the policies the learner may have in this state: [w, d] = probabilities w[i]/d *)
@@ -102,7 +103,7 @@ Policies(c, st, acts) == LET n == Len(acts) IN
 
 (***************************************************************************)
 (* The action drawn (1-based position in acts) from generator state s.     *)
-(* random.py choicew 210-226 / choice 189-208.  With weights the code      *)
+(* random.py choice 145-165 / choicew 167-183.  With weights the code      *)
 (* compares u*tot <= cum_i in floats; the weights are rationals whose      *)
 (* floats are rounded, so exactly at u*tot = cum_i (which needs cum_i/tot  *)
 (* dyadic) the float comparison may go either way: both positions are      *)
@@ -122,9 +123,9 @@ Pick(c, s, pol) == IF c.k = "random" THEN {ChoiceU(s, Len(pol.w)) + 1} ELSE Pick
 Outcomes(c, st, s, acts) == {[pmf |-> [i \in DOMAIN p.w |-> <<p.w[i], p.d>>], idx |-> Pick(c, s, p)] : p \in Policies(c, st, acts)}
 
 (***************************************************************************)
-(* learn.  Random / Fixed: nothing (bandit.py:185-186, 210-211).           *)
-(* eps (52-58): alpha = 1/(N+1); Q = (1-alpha) Q + alpha r; N += 1, i.e.   *)
-(* the mean.  UCB (111-126) keeps its own statistics; which actions were   *)
+(* learn.  Random / Fixed: nothing (bandit.py:186-187, 210-211).           *)
+(* eps (55-60): alpha = 1/(N+1); Q = (1-alpha) Q + alpha r; N += 1, i.e.   *)
+(* the mean.  UCB (110-124) keeps its own statistics; which actions were   *)
 (* observed is all the exact part of its policy needs.                     *)
 (* firm: the float is exact after the first observation (alpha = 1), when  *)
 (* N+1 is a power of two (alpha and 1-alpha exact, dyadic operands), and   *)
@@ -147,13 +148,13 @@ LearnSt(c, st, a, r2) ==
 (* for nan / inf), v = round(|x| * SC).                                    *)
 (***************************************************************************)
 SC  == 1000000000                 \* 1e9
-TOL == 100000                     \* 1e-4: the accuracy of Corral's own root search (corral.py:126, 132, 170)
+TOL == 100000                     \* 1e-4: the accuracy of Corral's own root search (corral.py:126, 135, 170)
 Pos(x) == x.sg = 1
 RECURSIVE SumV(_, _)
 SumV(xs, I) == IF I = {} THEN 0 ELSE LET i == CHOOSE j \in I : TRUE IN xs[i].v + SumV(xs, I \ {i})
 IsDist(xs) == /\ \A i \in DOMAIN xs : Pos(xs[i])
               /\ Abs(SumV(xs, DOMAIN xs) - SC) <= TOL + Len(xs)
-(* corral.py:107  p_bar = (1-gamma) p + gamma/M, gamma = 1/T; in units of 1e-6 so that the products fit 32 bits (T M <= 2000) *)
+(* corral.py:108  p_bar = (1-gamma) p + gamma/M, gamma = 1/T; in units of 1e-6 so that the products fit 32 bits (T M <= 2000) *)
 MixOK(T, M, p, pb) == IF T = 0 THEN Abs(pb.v - p.v) <= 1
                       ELSE Abs((pb.v \div 1000) * T * M - ((T - 1) * M * (p.v \div 1000) + 1000000)) <= 2 * T * M + 2
 (* design fact (checked by TLC on a grid, MC_Learners!MixKeepsDist): mixing a distribution with the uniform one keeps it a distribution *)
@@ -179,7 +180,7 @@ BasePol(b, acts) == IF b.k = "random" THEN [w |-> [i \in DOMAIN acts |-> 1], d |
 BasePick(i, acts) == LET b == lrn.bases[i] IN IF Tracked(b) THEN Pick(b, inst[i].s, BasePol(b, acts)) ELSE DOMAIN acts
 AdvBases == inst' = [i \in Inst |-> IF i \in DOMAIN lrn.bases /\ Tracked(lrn.bases[i]) THEN [inst[i] EXCEPT !.s = Step(@)] ELSE inst[i]]
 Mass(I) == SumV(cw.pb, I)
-(* predict (corral.py:68-80): every base predicts once; pmf[a] = sum of p_bar over the bases that chose a (72); the action
+(* predict (corral.py:66-71, 76-77): every base predicts once; pmf[a] = sum of p_bar over the bases that chose a (69); the action
    is drawn from that pmf with Corral's own generator: it has positive mass and p is its mass *)
 CorralPredict(acts, bacts, ret, p) ==
     /\ lrn.k = "corral" /\ Len(acts) >= 1
@@ -188,7 +189,7 @@ CorralPredict(acts, bacts, ret, p) ==
     /\ {i \in 1..lrn.M : bacts[i] = ret} # {}
     /\ Pos(p) /\ Abs(p.v - Mass({i \in 1..lrn.M : bacts[i] = ret})) <= lrn.M
     /\ AdvBases /\ UNCHANGED <<lrn, stat, cw>>
-(* score (corral.py:76-77): the bases predict again; the value is the p_bar mass of those that now choose a *)
+(* score (corral.py:73-74, utilities.py:43): the bases predict again; the value is the p_bar mass of those that now choose a *)
 CorralScore(acts, a, val) ==
     /\ lrn.k = "corral" /\ a \in DOMAIN acts
     /\ LET May == {i \in 1..lrn.M : a \in BasePick(i, acts)}
@@ -197,7 +198,7 @@ CorralScore(acts, a, val) ==
                                 /\ Abs(val.v - Mass(Z)) <= lrn.M
                                 /\ val.sg = (IF Z = {} THEN 0 ELSE 1)
     /\ AdvBases /\ UNCHANGED <<lrn, stat, cw>>
-(* learn (corral.py:82-113): never raises, never hangs (res = "ok"); afterwards both weight vectors are strictly positive
+(* learn (corral.py:79-113): never raises, never hangs (res = "ok"); afterwards both weight vectors are strictly positive
    distributions to 1e-4 and p_bar is the gamma-mixture of p.  Nothing is drawn. *)
 CorralLearn(res, nps, npb) ==
     /\ lrn.k = "corral" /\ res = "ok"
